@@ -153,6 +153,7 @@ class PairExpander:
                     expansion_func(snippet_to_expand, all_lines_expanded, *args)
                 snippet_to_expand = []
                 within_tags = False
+                param = None # belongs to this block only
             if within_tags and not begin:
                 snippet_to_expand.append(line)
         return all_lines_expanded
